@@ -41,6 +41,11 @@ def hostile_step(rnd, chain, opened, authed):
 def scenario(rnd, hostile_p=0.5, single=None):
     chain = rnd.choice([5, 6, 8])
     pre = rnd.randint(1, 3)
+    g = 20
+    if rnd.random() < 0.3:
+        # a short retention window: the honest chain outgrows window and block ring while the node follows it
+        g = rnd.choice([2, 3])
+        chain = rnd.randint(2 * g + 3, 2 * g + 6)
     steps = [dict(op="open", conn=1), dict(op="auth", conn=1, kind="honest")]
     opened, authed = set(), set()
     if rnd.random() < 0.8:
@@ -87,7 +92,7 @@ def scenario(rnd, hostile_p=0.5, single=None):
     steps.append(dict(op="drain"))
     maybe_hostile()
     steps.append(dict(op="drain"))
-    return dict(g=20, hb=100, chain=chain, pre=pre, steps=steps)
+    return dict(g=g, hb=100, chain=chain, pre=pre, steps=steps)
 
 
 def catalogue_scenarios(rnd):
